@@ -226,7 +226,9 @@ def c11(tier, seed, work):
                 dict(name="c11-third", insess=(seed % 2 == 0), cmds=pairs[(seed + 2) % 3], maxcalls=2, maxatt=2, kinds="KindsDesync", auth=a, integ=i, codes="CodesOkBusy"),
                 # a command whose response has no body: only the message header ties the reply to the request
                 dict(name="c11-nobody", insess=True, cmds="CmdsAC", maxcalls=2, maxatt=2, kinds="KindsDesync", auth=a, integ=i, codes="CodesOkBusy"),
-                dict(name="c11-nobody-n", insess=False, cmds="CmdsCR", maxcalls=2, maxatt=2, kinds="KindsDesync", auth=1, integ=1, codes="CodesOkBusy")]
+                dict(name="c11-nobody-n", insess=False, cmds="CmdsCR", maxcalls=2, maxatt=2, kinds="KindsDesync", auth=1, integ=1, codes="CodesOkBusy"),
+                # the same command number under two network functions
+                dict(name="c11-samenum", insess=(seed % 2 == 1), cmds="CmdsRQ", maxcalls=2, maxatt=2, kinds="KindsDesync", auth=a, integ=i, codes="CodesOkBusy")]
         mc = [("MCConsole", "MC_Console_sess_quick.cfg"), ("MCConsole", "MC_Console_nosess_quick.cfg")]
     else:
         fams = [dict(name="c11-sess", insess=True, cmds="CmdsABR", maxcalls=2, maxatt=2, kinds="KindsDesync", auth=a, integ=i),
@@ -236,7 +238,9 @@ def c11(tier, seed, work):
                 dict(name="c11-group-s", insess=True, cmds="CmdsAGH", maxcalls=2, maxatt=2, kinds="KindsDesync", auth=a, integ=i),
                 dict(name="c11-group-n", insess=False, cmds="CmdsAGH", maxcalls=2, maxatt=2, kinds="KindsDesync", auth=1, integ=1),
                 dict(name="c11-nobody", insess=True, cmds="CmdsAC", maxcalls=2, maxatt=3, kinds="KindsDesync", auth=a, integ=i),
-                dict(name="c11-nobody-n", insess=False, cmds="CmdsCR", maxcalls=2, maxatt=3, kinds="KindsDesync", auth=1, integ=1)]
+                dict(name="c11-nobody-n", insess=False, cmds="CmdsCR", maxcalls=2, maxatt=3, kinds="KindsDesync", auth=1, integ=1),
+                dict(name="c11-samenum-s", insess=True, cmds="CmdsRQ", maxcalls=2, maxatt=3, kinds="KindsDesync", auth=a, integ=i),
+                dict(name="c11-samenum-n", insess=False, cmds="CmdsRQ", maxcalls=2, maxatt=3, kinds="KindsDesync", auth=1, integ=1)]
         mc = [("MCConsole", "MC_Console_sess.cfg"), ("MCConsole", "MC_Console_nosess.cfg")]
     return console_check("C11", tier, seed, work, mc, fams, COMMON_ASSUME)
 
@@ -645,6 +649,7 @@ def c06(tier, seed, work):
                       "Retransmissions: every outcome sequence of Console.tla (busy, timeout code, garbage, bad signature, lost) in and out of a "
                       "session; every datagram transmitted, first or repeated, must parse as the caller's command.")
     return add_walk(res, work, [dict(name="c06-sensor", module="MCGenSensor", cfg_tpl="Gen_Cipher.cfg.tpl", family="sweep", tier=tier, seed=seed),
+                                dict(name="c06-lun-retry", module="MCGenSensor", cfg_tpl="Gen_Cipher.cfg.tpl", family="lun", tier=tier, seed=seed),
                                 dict(name="c06-api", module="MCGenApi", cfg_tpl="Gen_Cipher.cfg.tpl", family="api", tier=tier, seed=seed)],
                     "In-session request encodings: Get Sensor Reading to every owner LUN (responses come back from that LUN) followed by "
                     "further requests on the same session; TLC parses each decrypted request (addresses, NetFn/LUN both ways, command, "
@@ -788,8 +793,10 @@ def c13(tier, seed, work):
     a, i = suite_for(seed, 4)
     d = 2 if tier == "quick" else 3
     odd = F.walk_family(work, "c13-dcmi-odd", "MCGenDcmi", "Gen_Cipher.cfg.tpl", "odd", tier, seed)
-    require_accepted([odd])
-    ov = flatten(odd)
+    # malformed cipher suite record data: the discovery returns (an error) instead of spinning past any deadline
+    disc = F.walk_family(work, "c13-discovery", "MCGenCipher", "Gen_Cipher.cfg.tpl", "discovery13", tier, seed)
+    require_accepted([odd, disc])
+    ov = flatten(odd) + flatten(disc)
     attach_scripts(ov)
     viols += ov
     cons = [F.console_family(work, "c13-nobody-s", True, "CmdsAC", 2, d, "KindsRetry", a, i),
